@@ -170,10 +170,14 @@ CLAIMED = {
               "in-range parameters (utf8_code, block_size_code + block_size(), sample_rate_code for every tag, subframe_header, constant, "
               "verbatim, quantized_parameters, stream_info, metadata_block, frame_header with and without CRC, u_to_i for every width); "
               "(2) frame_header(true) returns Ok only if the stored CRC-8 equals the checksum of the consumed bytes; plus the residual "
-              "recogniser parser::residual panic-free for ANY input, block size and warm-up (Verus, nom primitives as assumed contracts)."),
+              "recogniser parser::residual panic-free for ANY input, block size and warm-up (Verus, nom primitives as assumed contracts); "
+              "(3) the frame recogniser parser::frame for ANY input: the slice handed to the CRC stays inside the input, a frame is accepted "
+              "only if its footer is the CRC-16 of exactly the bytes from its first byte to the footer, and only with STREAMINFO's channel "
+              "count and width (Verus parser_frame; header / sub-frame recognisers and nom's verify / Offset as assumed contracts)."),
         note=("Kani units bounded in input length (8 header bytes, 34 STREAMINFO bytes, ...), complete in byte values.  Not decided: 'an altered "
-              "frame is never accepted with different audio' (a probabilistic fact about 16-bit coincidences), the frame CRC-16 comparison and "
-              "the composition subframe -> fixed_lpc/lpc -> residual -> frame (intractable for Kani; `impl FnMut`-returning parsers cannot be stubbed)."),
+              "frame is never accepted with different audio' beyond 'CRC-16 enforced' (a probabilistic fact about 16-bit coincidences), and "
+              "the composition subframe -> fixed_lpc/lpc -> residual inside parser::frame, which enters the Verus unit as an assumed callee "
+              "contract (intractable for Kani; `impl FnMut`-returning parsers cannot be stubbed)."),
         technique=KANI + " + " + VERUS,
         design_ref="6 C16"),
     "C17": dict(
